@@ -6,6 +6,7 @@
 package c14
 
 import (
+	"bytes"
 	"fmt"
 	"os"
 	"runtime"
@@ -52,6 +53,9 @@ type Case struct {
 	CheckIntervalMs int    `json:"check_interval_ms,omitempty"`
 	ClosePausesUs   []int  `json:"close_pauses_us,omitempty"`
 	Procs           int    `json:"gomaxprocs,omitempty"`
+	// PeerWrites (idleclose): the collector side writes this many bytes to the exporter before it
+	// closes the connection
+	PeerWrites int `json:"peer_writes,omitempty"`
 }
 
 var rec *ev.Recorder
@@ -474,11 +478,15 @@ func runIdleClose(c Case) (*ev.Failure, bool) {
 		return ev.Failf("template: %v", err), false
 	}
 	sleepUs(c.CloseAfterUs)
-	peer.CloseConn()
+	if c.PeerWrites > 0 {
+		peer.WriteThenCloseConn(bytes.Repeat([]byte("x"), c.PeerWrites))
+	} else {
+		peer.CloseConn()
+	}
 	time.Sleep(20*interval + 200*time.Millisecond)
 	ds, _ := exph.DataSet(256, templates[0], dataRecs(0, 1, 1), 0)
 	if _, err := ep.SendSet(ds); err == nil {
-		return ev.Failf("the collector closed the connection %v ago (check interval %v, the application was idle meanwhile) and SendSet still reports success: the message vanishes", 20*interval+200*time.Millisecond, interval), true
+		return ev.Failf("the collector wrote %d bytes and closed the connection %v ago (check interval %v, the application was idle meanwhile) and SendSet still reports success: the message vanishes", c.PeerWrites, 20*interval+200*time.Millisecond, interval), true
 	}
 	return nil, true
 }
@@ -679,6 +687,7 @@ func genCase(t *rapid.T) Case {
 	case 10:
 		c.Kind, c.Proto = "idleclose", "tcp"
 		c.CheckIntervalMs = rapid.SampledFrom([]int{1, 2, 5}).Draw(t, "interval")
+		c.PeerWrites = rapid.SampledFrom([]int{0, 0, 1, 41, 200, 5000}).Draw(t, "peer_writes")
 		// before the first check, between checks, well after several checks
 		c.CloseAfterUs = c.CheckIntervalMs * rapid.SampledFrom([]int{0, 500, 1500, 3500, 10000}).Draw(t, "closeafter_permille")
 	case 6, 7:
